@@ -7,6 +7,7 @@ import (
 	"strings"
 	"sync"
 
+	"git.defalsify.org/vise.git/state"
 	"git.defalsify.org/vise.git/vm"
 
 	"visim/app"
@@ -38,6 +39,7 @@ var refusalCandidates = [][]byte{
 	[]byte("\x00"), []byte("\xff\xfe"), []byte("@root|$"), []byte("{{.x}}"), []byte("+"), []byte("#1"), []byte("\t1"),
 	[]byte(strings.Repeat("9", 256)), []byte(strings.Repeat("z", 300)), []byte("1" + strings.Repeat("0", 255)),
 	[]byte("\n1"), []byte(" 1"), []byte("/1"), []byte("(0)"), []byte("\r"), []byte("\r\n"), []byte("\n\n"),
+	[]byte("1" + strings.Repeat("é", 150)), []byte("a" + strings.Repeat("→", 90)), []byte(strings.Repeat("ø", 128)),
 	[]byte(" " + strings.Repeat("x", 250)), []byte(strings.Repeat("*", 300)), []byte("\n" + strings.Repeat("1", 220)), []byte("-" + strings.Repeat("0", 254)),
 }
 
@@ -145,6 +147,11 @@ func runC17(c *core.Ctx) *core.Outcome {
 				break
 			}
 			if st.ExecErr == "" {
+				if len(cand) > state.INPUT_LIMIT {
+					// the one refusal the property spells out: longer than the input limit (the library's own
+					// constant, counted in bytes as everything else about an input is)
+					return fail("overlong-input-accepted", i, "input of %d bytes (limit %d) was not refused: cont=%v out=%s", len(cand), state.INPUT_LIMIT, st.Cont, short(st.Out))
+				}
 				// accepted: not a refusal; the twins no longer correspond
 				o.Probes["candidate_accepted"]++
 				break
